@@ -350,6 +350,19 @@ CHECKS.update({
     ),
 })
 
+CHECKS.update({
+    "C28": (
+        "generated typed compositions of base forms; oracle = finite-dimensional model (numpy tensors; forms assembled with a fixed linear functional of their integrands evaluated by the interpreter on basis fields)",
+        "Hypothesis-generated well-typed compositions of Matrix, Cofunction, bilinear/linear/argument-free Forms, "
+        "ZeroBaseForm, weighted sums (operators and explicit FormSum, nested, repeated, cancelling), Action with data "
+        "coefficients on either side, Adjoint and the action()/adjoint() functions: the tensor obtained by walking the "
+        "object UFL returns must equal the tensor of the composition, arguments() must report the map's slots in order "
+        "with numbers 0..n-1, and coefficients() must contain every coefficient the tensor depends on.",
+        "Real data; three spaces of dimension 2, 3, 2; derivatives of base forms are not generated.",
+        "4/C28",
+    ),
+})
+
 NOT_YET = {}
 
 
